@@ -731,20 +731,22 @@ func (c *Ctx) checkFailureReported(rel string) {
 			if ex, isEx := eVal.(*ssa.Extract); isEx {
 				init = core.NilFacts{core.ResultFact(ex.Tuple, ex.Index): false}
 			}
-			core.NilWalkAfterWith(fn, call, init, cut, nil, func(i2 ssa.Instruction, f core.NilFacts) {
-				ret, ok := i2.(*ssa.Return)
-				if !ok {
-					return
-				}
-				if n, known := f[eVal]; !known || n {
-					return
-				}
-				if k, n := core.Nilness(ret.Results[errIdx], f); !(k && !n) {
-					if firstBad == nil {
-						firstBad = call
-						badRet = ret
+			core.WalkDeep(2, func(g *ssa.Function) bool { return g.Parent() == nil }, func() {
+				core.NilWalkAfterWith(fn, call, init, cut, nil, func(i2 ssa.Instruction, f core.NilFacts) {
+					ret, ok := i2.(*ssa.Return)
+					if !ok || i2.Parent() != fn {
+						return
 					}
-				}
+					if n, known := f[eVal]; !known || n {
+						return
+					}
+					if k, n := core.Nilness(ret.Results[errIdx], f); !(k && !n) {
+						if firstBad == nil {
+							firstBad = call
+							badRet = ret
+						}
+					}
+				})
 			})
 		})
 		if nCalls == 0 {
